@@ -203,6 +203,33 @@ def extra_oracles(rng, tier):
                                              % (a, b, (ok1, ok2), same)))
     finally:
         S.time = old_time
+    # timeouts that are not whole seconds: the same window rule (instants on a grid of T/4, all exactly representable)
+    from fractions import Fraction as Fr
+    clock = [0.0]
+    S.time = lambda: clock[0]
+    try:
+        for T in (0.5, 1.5, 2.5, 7.5):
+            for base in (0.0, 3 * T, 1024 * T):
+                for i in range(0, 13):
+                    for j in range(i, 13):
+                        t0, t1 = base + i * T / 4, base + j * T / 4
+                        n += 1
+                        try:
+                            clock[0] = t0
+                            tok = get_token("k", "c", timeout=T)
+                            clock[0] = t1
+                            got = check_token(tok, "k", "c", timeout=T)
+                        except Exception as err:
+                            out.append(Violation("token-raises", "T=%s t0=%s t1=%s" % (T, t0, t1), "raised %r" % (err,)))
+                            continue
+                        w0, w1 = Fr(t0) / Fr(T), Fr(t1) / Fr(T)
+                        want = 0 <= (w1.numerator // w1.denominator) - (w0.numerator // w0.denominator) <= 1
+                        if got != want:
+                            out.append(Violation("c16-float-timeout", "T=%s t0=%s t1=%s" % (T, t0, t1),
+                                                 "token issued at %s checked at %s with T=%s: %s, the windows say %s"
+                                                 % (t0, t1, T, got, want)))
+    finally:
+        S.time = old_time
     return out, {"evaluations": n, "distinct_nontrivial": n, "e2e_outcomes": hit}
 
 
